@@ -317,13 +317,42 @@ pub fn on_unlock(addr: usize) {
 
 pub struct JoinHandle<T> {
     tid: usize,
-    os: std::thread::JoinHandle<T>,
+    rx: std::sync::mpsc::Receiver<std::thread::Result<T>>,
 }
 
 impl<T> JoinHandle<T> {
     pub fn tid(&self) -> usize {
         self.tid
     }
+}
+
+type PoolJob = Box<dyn FnOnce() + Send + 'static>;
+
+/// Idle pooled OS threads. Creating an OS thread costs ~0.5 ms in this sandbox and does not
+/// parallelise across processes, so controlled threads are recycled between executions.
+static POOL: Mutex<Vec<std::sync::mpsc::Sender<PoolJob>>> = Mutex::new(Vec::new());
+
+fn pool_run(job: PoolJob) {
+    let idle = POOL.lock().unwrap().pop();
+    let tx = match idle {
+        Some(tx) => tx,
+        None => {
+            let (tx, rx) = std::sync::mpsc::channel::<PoolJob>();
+            let tx2 = tx.clone();
+            std::thread::Builder::new()
+                .name("vsched-pool".to_string())
+                .spawn(move || {
+                    while let Ok(job) = rx.recv() {
+                        job();
+                        // back to the pool
+                        POOL.lock().unwrap().push(tx2.clone());
+                    }
+                })
+                .expect("spawn pooled OS thread");
+            tx
+        }
+    };
+    tx.send(job).expect("pooled thread is gone");
 }
 
 /// Spawn a controlled thread. Must be called from a registered thread.
@@ -344,41 +373,36 @@ where
         st.threads.len() - 1
     };
     let sched2 = sched.clone();
-    let os = std::thread::Builder::new()
-        .name(format!("vsched-{name}"))
-        .spawn(move || {
-            MY.with(|m| *m.borrow_mut() = Some((sched2.clone(), tid)));
-            // Wait for the baton.
-            {
-                let st = lock_state(&sched2);
-                let cv = st.threads[tid].cv.clone();
-                let st = match cv.wait_while(st, |s| s.current != tid && s.aborted.is_none()) {
-                    Ok(g) => g,
-                    Err(p) => p.into_inner(),
-                };
-                after_wait(st, tid, "start");
-            }
-            let out = std::panic::catch_unwind(std::panic::AssertUnwindSafe(f));
-            // Exit: pass the baton on.
-            {
-                let mut st = lock_state(&sched2);
-                st.threads[tid].status = Status::Finished;
-                for t in st.threads.iter_mut() {
-                    if t.status == Status::Joining(tid) {
-                        t.status = Status::Runnable;
-                    }
+    let (rtx, rrx) = std::sync::mpsc::channel::<std::thread::Result<T>>();
+    pool_run(Box::new(move || {
+        MY.with(|m| *m.borrow_mut() = Some((sched2.clone(), tid)));
+        // Wait for the baton.
+        {
+            let st = lock_state(&sched2);
+            let cv = st.threads[tid].cv.clone();
+            let st = match cv.wait_while(st, |s| s.current != tid && s.aborted.is_none()) {
+                Ok(g) => g,
+                Err(p) => p.into_inner(),
+            };
+            after_wait(st, tid, "start");
+        }
+        let out = std::panic::catch_unwind(std::panic::AssertUnwindSafe(f));
+        // Hand the result over before passing the baton on, so that a joiner finds it.
+        let _ = rtx.send(out);
+        {
+            let mut st = lock_state(&sched2);
+            st.threads[tid].status = Status::Finished;
+            for t in st.threads.iter_mut() {
+                if t.status == Status::Joining(tid) {
+                    t.status = Status::Runnable;
                 }
-                let _st = reschedule(&sched2, st, tid, Why::Exit);
             }
-            MY.with(|m| *m.borrow_mut() = None);
-            match out {
-                Ok(v) => v,
-                Err(p) => std::panic::resume_unwind(p),
-            }
-        })
-        .expect("spawn OS thread");
+            let _st = reschedule(&sched2, st, tid, Why::Exit);
+        }
+        MY.with(|m| *m.borrow_mut() = None);
+    }));
     point(Why::Spawn);
-    JoinHandle { tid, os }
+    JoinHandle { tid, rx: rrx }
 }
 
 /// Join a controlled thread. `Err` carries the panic payload of the thread.
@@ -395,7 +419,10 @@ pub fn join<T>(h: JoinHandle<T>) -> std::thread::Result<T> {
             after_wait(st, me, "join");
         }
     }
-    h.os.join()
+    match h.rx.recv() {
+        Ok(r) => r,
+        Err(_) => Err(Box::new("vsched: controlled thread vanished without a result".to_string())),
+    }
 }
 
 /// Thread id of the caller within the running execution.
